@@ -24,6 +24,12 @@ CHECKS["C20"] = dict(
     note="Bounded lattice (-4..4)^3, radii <= 4; off-lattice behaviour sampled (surface normals, seeded clouds, voxel grids). Trusts exact float arithmetic on small integers and powers of two.",
     ref="5 C20")
 
+CHECKS["C19"] = dict(
+    technique="TLA+ state-merging spec Coords.tla model-checked by TLC; every edge of the dumped graph (conversion paths, Euler representatives, composite translations) executed on the real functions and compared with the abstract state's canonical value and an independent oracle",
+    text="TLC enumerates 162 point classes (sign pattern incl. axes/planes/origin x tiny/unit/huge magnitude x scalar/array z) and all conversion paths of length <= 3-4 through the three coordinate systems, Euler-angle representatives in -24..47 units of 15 degrees under +-full turns and the beta=0 slide, and composites of 1-6 members under lattice translations; the model's laws (point never changes, rotation never changes, translations compose) are checked by TLC and each edge is replayed: path value == canonical value of the merged state, ranges, radius, rotation_matrix == Rz Ry Rz (radians and degrees), orthogonality, determinant, rigid motion of composites and RigidCluster.",
+    note="Continuous coordinates are concretised per class with VERIF_SEED; angles compared modulo 2 pi at 1e-12. Oracle leaves: math.atan2/hypot and elementary rotation matrices written independently.",
+    ref="5 C19")
+
 NOT_APPLICABLE = []
 
 
